@@ -50,6 +50,9 @@ const (
 	rRunning = iota
 	rStopped
 	rDead
+	// answers the ping, but its replication status cannot be read (the status query fails): the manager
+	// cannot tell what it is, so it is neither a replicating nor an alive replica for the gates
+	rPartial
 )
 
 const (
@@ -122,6 +125,8 @@ func c05Run(r *vt.Run, c c05Case) {
 				s.IORunning, s.SQLRunning = false, false
 			case rDead:
 				s.Up = false
+			case rPartial:
+				s.FailOps = map[string]uint16{"replica_status": 1205}
 			}
 		}
 		switch c.List {
@@ -326,7 +331,7 @@ func c05Run(r *vt.Run, c c05Case) {
 				if host == "h1" {
 					continue
 				}
-				if c.Reps[int(host[1]-'2')] != rDead {
+				if k := c.Reps[int(host[1]-'2')]; k != rDead && k != rPartial {
 					alive++
 				}
 			}
@@ -443,6 +448,21 @@ func checkC05(r *vt.Run) {
 				for list := 0; list <= 3; list++ {
 					for _, mup := range []bool{true, false} {
 						run(c05Case{Failover: true, Resetup: true, Delay: 0, MasterUp: mup, Reps: [2]int{r2, r3}, List: list, Async: true, Ticks: []c05Tick{{0, health, false}}})
+					}
+				}
+			}
+		}
+	}
+	// a member whose replication status cannot be read (it answers the ping): every gate with it
+	for health := hOK; health <= hCrash; health++ {
+		for r2 := rRunning; r2 <= rPartial; r2++ {
+			for r3 := rRunning; r3 <= rPartial; r3++ {
+				if r2 != rPartial && r3 != rPartial {
+					continue
+				}
+				for list := 0; list <= 3; list++ {
+					for _, mup := range []int{0, 1, 2} {
+						run(c05Case{Failover: true, Resetup: true, Delay: 0, MasterUp: mup == 1, MasterHung: mup == 2, Reps: [2]int{r2, r3}, List: list, Ticks: []c05Tick{{0, health, false}}})
 					}
 				}
 			}
